@@ -167,8 +167,9 @@ CHECKS.update({
              "gene already knocked out, with empty (assigned empty, or never assigned) or minimising objectives: the full observation (content, bounds, objective, LP, gene "
              "states, context depth) is proved unchanged and a second call returns the same uniquely defined quantities. The analysis "
              "harnesses of C04-C06, C09, C14, C17-C20 carry the same 'model-unchanged' obligation on every path.",
-        note="Not applicable parts: gapfill and ROOM (MILP), sampling (float numerics), production_envelope (np.linspace on symbolic "
-             "extremes); geometric_fba only in the thorough tier on T1. " + NOTE_COMMON, ref="4/C13"),
+        note="ROOM, gapfill and minimal_medium(minimize_components) run on the stub's MILP contract, production_envelope with points=3 "
+             "(gapfill works on a copy of the model; its result is not judged here). Not applicable part: sampling (float numerics); "
+             "geometric_fba only in the thorough tier on T1. " + NOTE_COMMON, ref="4/C13"),
     "C14": dict(
         text="processes>1 branches of flux_variability_analysis and single/double deletions executed on a nondeterministic in-process "
              "pool: each worker gets its own unpickled copy of the model and private module globals; which worker takes which chunk and "
